@@ -919,6 +919,10 @@ func (db *DB) syncWALToLTX(ctx context.Context, ltxFilename string) error {
 // The journal & WAL should not exist at this point. The journal should be
 // rolled back and the WAL should be checkpointed.
 func (db *DB) initDatabaseFile() error {
+	// Re-derive the mode now that the journal has been rolled back and the WAL
+	// checkpointed as the header read before recovery may have been uncommitted.
+	db.mode.Store(DBModeRollback)
+
 	f, err := db.os.Open("INITDBFILE", db.DatabasePath())
 	if os.IsNotExist(err) {
 		log.Printf("database file does not exist on initialization: %s", db.DatabasePath())
@@ -937,6 +941,10 @@ func (db *DB) initDatabaseFile() error {
 	}
 	db.pageSize = hdr.PageSize
 	db.pageN.Store(hdr.PageN)
+
+	if hdr.WriteVersion == 2 && hdr.ReadVersion == 2 {
+		db.mode.Store(DBModeWAL)
+	}
 
 	assert(db.pageSize > 0, "page size must be greater than zero")
 
